@@ -228,7 +228,9 @@ class TimeIt:
     parent = thread_local.thread_local_get('__timing_context__', None)
     if parent is not None:
       parent.add(self)
-      self._parent = parent
+    # Always record the parent of THIS entry: a TimeIt entered again must not
+    # restore the parent of an earlier use when it exits.
+    self._parent = parent
     thread_local.thread_local_set('__timing_context__', self)
     self.start()
     return self
